@@ -164,7 +164,7 @@ func (n *Nodis) Incr(key string) (int64, error) {
 		m := unsafe.Slice(unsafe.StringData(vv), len(vv))
 		n.signalModifiedKey(key, meta)
 		n.notify(func() []patch.Op {
-			return []patch.Op{{Type: patch.OpTypeSet, Data: &patch.OpSet{Key: key, Value: m}}}
+			return []patch.Op{{Type: patch.OpTypeSet, Data: &patch.OpSet{Key: key, Value: m, KeepTTL: true}}}
 		})
 		return nil
 	})
@@ -184,7 +184,7 @@ func (n *Nodis) IncrBy(key string, increment int64) (int64, error) {
 		m := unsafe.Slice(unsafe.StringData(vv), len(vv))
 		n.signalModifiedKey(key, meta)
 		n.notify(func() []patch.Op {
-			return []patch.Op{{Type: patch.OpTypeSet, Data: &patch.OpSet{Key: key, Value: m}}}
+			return []patch.Op{{Type: patch.OpTypeSet, Data: &patch.OpSet{Key: key, Value: m, KeepTTL: true}}}
 		})
 		return nil
 	})
@@ -206,7 +206,7 @@ func (n *Nodis) Decr(key string) (int64, error) {
 		m := unsafe.Slice(unsafe.StringData(vv), len(vv))
 		n.signalModifiedKey(key, meta)
 		n.notify(func() []patch.Op {
-			return []patch.Op{{Type: patch.OpTypeSet, Data: &patch.OpSet{Key: key, Value: m}}}
+			return []patch.Op{{Type: patch.OpTypeSet, Data: &patch.OpSet{Key: key, Value: m, KeepTTL: true}}}
 		})
 		return nil
 	})
@@ -227,7 +227,7 @@ func (n *Nodis) DecrBy(key string, decrement int64) (int64, error) {
 		m := unsafe.Slice(unsafe.StringData(vv), len(vv))
 		n.signalModifiedKey(key, meta)
 		n.notify(func() []patch.Op {
-			return []patch.Op{{Type: patch.OpTypeSet, Data: &patch.OpSet{Key: key, Value: m}}}
+			return []patch.Op{{Type: patch.OpTypeSet, Data: &patch.OpSet{Key: key, Value: m, KeepTTL: true}}}
 		})
 		return nil
 	})
@@ -247,7 +247,7 @@ func (n *Nodis) IncrByFloat(key string, increment float64) (float64, error) {
 		m := unsafe.Slice(unsafe.StringData(vv), len(vv))
 		n.signalModifiedKey(key, meta)
 		n.notify(func() []patch.Op {
-			return []patch.Op{{Type: patch.OpTypeSet, Data: &patch.OpSet{Key: key, Value: m}}}
+			return []patch.Op{{Type: patch.OpTypeSet, Data: &patch.OpSet{Key: key, Value: m, KeepTTL: true}}}
 		})
 		return nil
 	})
@@ -263,7 +263,7 @@ func (n *Nodis) SetBit(key string, offset int64, value bool) int64 {
 		v = k.SetBit(offset, value)
 		n.signalModifiedKey(key, meta)
 		n.notify(func() []patch.Op {
-			return []patch.Op{{Type: patch.OpTypeSet, Data: &patch.OpSet{Key: key, Value: k.Get()}}}
+			return []patch.Op{{Type: patch.OpTypeSet, Data: &patch.OpSet{Key: key, Value: k.Get(), KeepTTL: true}}}
 		})
 		return nil
 	})
@@ -311,7 +311,7 @@ func (n *Nodis) Append(key string, value []byte) int64 {
 		v = k.Append(value)
 		n.signalModifiedKey(key, meta)
 		n.notify(func() []patch.Op {
-			return []patch.Op{{Type: patch.OpTypeSet, Data: &patch.OpSet{Key: key, Value: k.Get()}}}
+			return []patch.Op{{Type: patch.OpTypeSet, Data: &patch.OpSet{Key: key, Value: k.Get(), KeepTTL: true}}}
 		})
 		return nil
 	})
@@ -356,7 +356,7 @@ func (n *Nodis) SetRange(key string, offset int64, value []byte) int64 {
 		v = k.SetRange(offset, value)
 		n.signalModifiedKey(key, meta)
 		n.notify(func() []patch.Op {
-			return []patch.Op{{Type: patch.OpTypeSet, Data: &patch.OpSet{Key: key, Value: k.Get()}}}
+			return []patch.Op{{Type: patch.OpTypeSet, Data: &patch.OpSet{Key: key, Value: k.Get(), KeepTTL: true}}}
 		})
 		return nil
 	})
